@@ -183,7 +183,7 @@ Lemma meets_aff_valid k pid p c cs exp : kget pid k = Some p ->
   all_in (c :: cs) (p_elig p) = true ->
   spec_req pid (Affinity (Some (c :: cs))) k = Some exp -> run_req pid (Affinity (Some (c :: cs))) k = exp.
 Proof.
-  intros Hg Hrng Hall. unfold spec_req, run_req, cpu_affinity. rewrite Hg, Hall. intros [= <-].
+  intros Hg Hrng Hall. unfold spec_req, spec_aff_set, run_req, cpu_affinity. rewrite Hg, Hall. intros [= <-].
   change (fun c0 : Z => (c0 =? c) || memz c0 cs) with (fun c0 : Z => memz c0 (c :: cs)).
   unfold pl_cpu_affinity_set.
   assert (Hin : forall x, In x (c :: cs) -> In x (p_elig p)).
